@@ -41,6 +41,46 @@ def bound : T → Nat
   | .setIdx o k e => max (bound o) (max (bound k) (bound e))
   | .pow a b => max (bound a) (bound b)
   | .concat b s _ => max (bound b) (bound s)
+  | .this => 0
+  | .callV f _ a b c => max (bound f) (max (bound a) (max (bound b) (bound c)))
+  | .callDot o _ _ a b c => max (bound o) (max (bound a) (max (bound b) (bound c)))
+  | .callIdx o k _ a b c => max (bound o) (max (bound k) (max (bound a) (max (bound b) (bound c))))
+  | .callCall f t _ a b c => max (bound f) (max (bound t) (max (bound a) (max (bound b) (bound c))))
+  | .delDot o _ => bound o
+  | .delIdx o k => max (bound o) (bound k)
+  | .delV e => bound e
+  | .tcell _ => 0
+  | .setCell _ e => bound e
+  | .mkTpl _ _ => 0
+
+/-- a state property that every argument evaluation preserves is preserved by the evaluation of the list -/
+theorem args3_inv {σ : Type} (Q : σ → Prop) (n : Nat) (fa fb fc : σ → Res × σ)
+    (ha : ∀ s, Q s → Q (fa s).2) (hb : ∀ s, Q s → Q (fb s).2) (hc : ∀ s, Q s → Q (fc s).2) (s : σ) (hs : Q s) :
+    Q (args3 n fa fb fc s).2 := by
+  unfold args3
+  split
+  · exact hs
+  · have h1 := ha s hs
+    split <;> rename_i heq <;> rw [heq] at h1
+    · exact h1
+    · split
+      · exact h1
+      · rename_i s1 _ _
+        have h2 := hb s1 h1
+        split <;> rename_i heq2 <;> rw [heq2] at h2
+        · exact h2
+        · split
+          · exact h2
+          · rename_i s2 _ _
+            have h3 := hc s2 h2
+            split <;> rename_i heq3 <;> rw [heq3] at h3 <;> exact h3
+
+theorem callWithT_tm (w : World) (fv tv : Val) (fargs : TState → ARes × TState) (s s0 : TState) (k : Nat)
+    (h : (fargs s).2.tm k = s0.tm k) : (callWithT w fv tv fargs s).2.tm k = s0.tm k := by
+  unfold callWithT
+  split <;> rename_i heq <;> rw [heq] at h
+  · exact h
+  · simpa using h
 
 /-- sequencing preserves "temporary k is untouched" -/
 theorem bindR_tm (r : Res × TState) (f : Val → TState → Res × TState) (s : TState) (k : Nat)
@@ -147,6 +187,71 @@ theorem evalT_tm (w : World) : ∀ (t : T) (s : TState) (k : Nat), bound t ≤ k
       refine bindR_tm _ _ s k (by simpa using h2) (fun t s3 h3 => ?_)
       split <;> exact h3
     · exact h1
+  | this => intro s k _; rfl
+  | tcell site => intro s k _; rfl
+  | mkTpl site strs => intro s k _; rfl
+  | callV f n a b c ihf iha ihb ihc =>
+    intro s k hk
+    simp only [bound, Nat.max_le] at hk
+    simp only [evalT]
+    refine bindR_tm _ _ s k (ihf s k hk.1) (fun v s1 h1 => ?_)
+    exact callWithT_tm w _ _ _ s1 s k (args3_inv (fun s' : TState => s'.tm k = s.tm k) n _ _ _
+      (fun s' h' => (iha s' k hk.2.1).trans h') (fun s' h' => (ihb s' k hk.2.2.1).trans h')
+      (fun s' h' => (ihc s' k hk.2.2.2).trans h') s1 h1)
+  | callDot o p n a b c iho iha ihb ihc =>
+    intro s k hk
+    simp only [bound, Nat.max_le] at hk
+    simp only [evalT]
+    refine bindR_tm _ _ s k (iho s k hk.1) (fun v s1 h1 => ?_)
+    refine bindR_tm _ _ s k (by simpa using h1) (fun fv s2 h2 => ?_)
+    exact callWithT_tm w _ _ _ s2 s k (args3_inv (fun s' : TState => s'.tm k = s.tm k) n _ _ _
+      (fun s' h' => (iha s' k hk.2.1).trans h') (fun s' h' => (ihb s' k hk.2.2.1).trans h')
+      (fun s' h' => (ihc s' k hk.2.2.2).trans h') s2 h2)
+  | callIdx o kk n a b c iho ihk iha ihb ihc =>
+    intro s k hk
+    simp only [bound, Nat.max_le] at hk
+    simp only [evalT]
+    refine bindR_tm _ _ s k (iho s k hk.1) (fun v s1 h1 => ?_)
+    refine bindR_tm _ _ s k ((ihk s1 k hk.2.1).trans h1) (fun kv s2 h2 => ?_)
+    refine bindR_tm _ _ s k (by simpa using h2) (fun fv s3 h3 => ?_)
+    exact callWithT_tm w _ _ _ s3 s k (args3_inv (fun s' : TState => s'.tm k = s.tm k) n _ _ _
+      (fun s' h' => (iha s' k hk.2.2.1).trans h') (fun s' h' => (ihb s' k hk.2.2.2.1).trans h')
+      (fun s' h' => (ihc s' k hk.2.2.2.2).trans h') s3 h3)
+  | callCall f t n a b c ihf iht iha ihb ihc =>
+    intro s k hk
+    simp only [bound, Nat.max_le] at hk
+    simp only [evalT]
+    refine bindR_tm _ _ s k (ihf s k hk.1) (fun v s1 h1 => ?_)
+    split
+    · exact h1
+    · refine bindR_tm _ _ s k ((iht s1 k hk.2.1).trans h1) (fun tv s2 h2 => ?_)
+      exact callWithT_tm w _ _ _ s2 s k (args3_inv (fun s' : TState => s'.tm k = s.tm k) n _ _ _
+        (fun s' h' => (iha s' k hk.2.2.1).trans h') (fun s' h' => (ihb s' k hk.2.2.2.1).trans h')
+        (fun s' h' => (ihc s' k hk.2.2.2.2).trans h') s2 h2)
+  | delDot o p ih =>
+    intro s k hk
+    simp only [bound] at hk
+    simp only [evalT]
+    exact bindR_tm _ _ s k (ih s k hk) (fun v s1 h1 => by simpa using h1)
+  | delIdx o kk iho ihk =>
+    intro s k hk
+    simp only [bound, Nat.max_le] at hk
+    simp only [evalT]
+    refine bindR_tm _ _ s k (iho s k hk.1) (fun v s1 h1 => ?_)
+    refine bindR_tm _ _ s k ((ihk s1 k hk.2).trans h1) (fun v s2 h2 => by simpa using h2)
+  | delV e ih =>
+    intro s k hk
+    simp only [bound] at hk
+    simp only [evalT]
+    exact bindR_tm _ _ s k (ih s k hk) (fun v s1 h1 => h1)
+  | setCell site e ih =>
+    intro s k hk
+    simp only [bound] at hk
+    simp only [evalT]
+    refine bindR_tm _ _ s k (ih s k hk) (fun v s1 h1 => ?_)
+    split
+    · split <;> exact h1
+    · exact h1
 
 -- ---------------------------------------------------------------- temporaries allocated by the lowering
 
@@ -172,6 +277,97 @@ theorem bound_fin_le (acc : T) (pend : Option T) (m : Nat) (h1 : bound acc ≤ m
     simp only [PendBound] at h2
     simp only [fin, bound]
     omega
+
+theorem pendBound_mono (p : Option T) (m m' : Nat) (h : PendBound p m) (hm : m ≤ m') : PendBound p m' := by
+  cases p with
+  | none => trivial
+  | some t => simp only [PendBound] at h ⊢; omega
+
+theorem bound_finD_le (acc : T) (pend : Option T) (m : Nat) (h1 : bound acc ≤ m) (h2 : PendBound pend m) :
+    bound (finD acc pend) ≤ m := by
+  cases pend with
+  | none => exact h1
+  | some t =>
+    simp only [PendBound] at h2
+    simp only [finD, bound]
+    omega
+
+theorem targs_bound (tpl : Option TplSite) (n : Nat) (A B : T) (m : Nat) (hA : bound A ≤ m) (hB : bound B ≤ m) :
+    bound (targs tpl n A B).2.1 ≤ m ∧ bound (targs tpl n A B).2.2.1 ≤ m ∧ bound (targs tpl n A B).2.2.2 ≤ m := by
+  cases tpl <;> simp [targs, tplExpr, bound, hA, hB]
+
+theorem linkT_bound (lk : Link) (o K : T) (m : Nat) (ho : bound o ≤ m) (hK : bound K ≤ m) : bound (linkT lk o K) ≤ m := by
+  cases lk <;> simp only [linkT, bound] <;> omega
+
+theorem delT_bound (lk : Link) (o K : T) (m : Nat) (ho : bound o ≤ m) (hK : bound K ≤ m) : bound (delT lk o K) ≤ m := by
+  cases lk <;> simp only [delT, bound] <;> omega
+
+theorem callM_bound (lk : Link) (o K : T) (g : Nat × T × T × T) (m : Nat) (ho : bound o ≤ m) (hK : bound K ≤ m)
+    (h1 : bound g.2.1 ≤ m) (h2 : bound g.2.2.1 ≤ m) (h3 : bound g.2.2.2 ≤ m) : bound (callM lk o K g) ≤ m := by
+  cases lk <;> simp only [callM, bound] <;> omega
+
+theorem memStore_bound (optLink : Bool) (lk : Link) (oacc : T) (opend : Option T) (K : T) (m : Nat)
+    (ho : bound oacc ≤ m) (hp : PendBound opend m) (hK : bound K ≤ m) :
+    m ≤ (memStore optLink lk oacc opend K m).2.2.2 ∧
+    bound (memStore optLink lk oacc opend K m).1 ≤ (memStore optLink lk oacc opend K m).2.2.2 ∧
+    PendBound (memStore optLink lk oacc opend K m).2.1 (memStore optLink lk oacc opend K m).2.2.2 ∧
+    bound (memStore optLink lk oacc opend K m).2.2.1 = 0 := by
+  cases optLink with
+  | false =>
+    have c1 := capture_next oacc m
+    have c2 := capture_bound1 oacc m
+    have c3 := capture_bound2 oacc m
+    simp only [memStore]
+    refine ⟨c1.1, linkT_bound _ _ _ _ (by omega) (by omega), pendBound_mono _ _ _ hp c1.1, c3⟩
+  | true =>
+    have hf := bound_fin_le _ _ _ ho hp
+    have c1 := capture_next (fin oacc opend) m
+    have c2 := capture_bound1 (fin oacc opend) m
+    have c3 := capture_bound2 (fin oacc opend) m
+    simp only [memStore]
+    refine ⟨c1.1, linkT_bound _ _ _ _ (by omega) (by omega), ?_, c3⟩
+    simp only [PendBound]
+    omega
+
+theorem mcallLower_bound (mode : CMode) (optLink : Bool) (lk : Link) (oacc : T) (opend : Option T) (K : T)
+    (g : Nat × T × T × T) (m : Nat) (ho : bound oacc ≤ m) (hp : PendBound opend m) (hK : bound K ≤ m)
+    (h1 : bound g.2.1 ≤ m) (h2 : bound g.2.2.1 ≤ m) (h3 : bound g.2.2.2 ≤ m) :
+    m ≤ (mcallLower mode optLink lk oacc opend K g m).2.2 ∧
+    bound (mcallLower mode optLink lk oacc opend K g m).1 ≤ (mcallLower mode optLink lk oacc opend K g m).2.2 ∧
+    PendBound (mcallLower mode optLink lk oacc opend K g m).2.1 (mcallLower mode optLink lk oacc opend K g m).2.2 := by
+  cases mode with
+  | plain =>
+    cases optLink with
+    | false =>
+      simp only [mcallLower]
+      exact ⟨Nat.le_refl _, callM_bound _ _ _ _ _ ho hK h1 h2 h3, hp⟩
+    | true =>
+      have hf := bound_fin_le _ _ _ ho hp
+      have c1 := capture_next (fin oacc opend) m
+      have c2 := capture_bound1 (fin oacc opend) m
+      have c3 := capture_bound2 (fin oacc opend) m
+      simp only [mcallLower]
+      refine ⟨c1.1, callM_bound _ _ _ _ _ (by omega) (by omega) (by omega) (by omega) (by omega), ?_⟩
+      simp only [PendBound]
+      omega
+  | opt =>
+    obtain ⟨s1, s2, s3, s4⟩ := memStore_bound optLink lk oacc opend K m ho hp hK
+    simp only [mcallLower]
+    generalize memStore optLink lk oacc opend K m = ms at s1 s2 s3 s4 ⊢
+    have hf := bound_fin_le _ _ _ s2 s3
+    have c1 := capture_next (fin ms.1 ms.2.1) ms.2.2.2
+    have c2 := capture_bound1 (fin ms.1 ms.2.1) ms.2.2.2
+    have c3 := capture_bound2 (fin ms.1 ms.2.1) ms.2.2.2
+    refine ⟨by omega, ?_, ?_⟩
+    · simp only [bound]; omega
+    · simp only [PendBound]; omega
+  | paren =>
+    obtain ⟨s1, s2, s3, s4⟩ := memStore_bound optLink lk oacc opend K m ho hp hK
+    simp only [mcallLower]
+    generalize memStore optLink lk oacc opend K m = ms at s1 s2 s3 s4 ⊢
+    have hf := bound_fin_le _ _ _ s2 s3
+    refine ⟨s1, ?_, trivial⟩
+    simp only [bound]; omega
 
 theorem bound_write (a : TT) (r : T) : bound (a.write r) = max (bound a.read) (bound r) := by
   cases a <;> simp [TT.write, TT.read, bound, Nat.max_assoc]
@@ -301,6 +497,95 @@ theorem lowerC_bound : ∀ (e : S) (n : Nat),
     have o1 := opCallback_next op (.idx co.1 ck.1) (.idx co.2.1 ck.2.1) (fin rr.1 rr.2.1) ck.2.2
     refine ⟨by omega, ?_, trivial⟩
     apply opCallback_bound <;> (try simp only [TT.read, bound]) <;> omega
+  | this => intro n; simp [lowerC, bound, PendBound]
+  | optIdx o k iho ihk =>
+    intro n
+    obtain ⟨h1, h2, h3⟩ := iho n
+    obtain ⟨k1, k2, k3⟩ := ihk (lowerC o n).2.2
+    have hfo := bound_fin_le _ _ _ h2 h3
+    have hfk := bound_fin_le _ _ _ k2 k3
+    simp only [lowerC]
+    generalize lowerC k (lowerC o n).2.2 = rk at k1 k2 k3 hfk ⊢
+    generalize lowerC o n = ro at h1 h2 h3 hfo k1 ⊢
+    have c1 := capture_next (fin ro.1 ro.2.1) rk.2.2
+    have c2 := capture_bound1 (fin ro.1 ro.2.1) rk.2.2
+    have c3 := capture_bound2 (fin ro.1 ro.2.1) rk.2.2
+    simp only [bound, PendBound]
+    omega
+  | vcall opt tpl f nn a b ihf iha ihb =>
+    intro n
+    obtain ⟨f1, f2, f3⟩ := ihf n
+    obtain ⟨a1, a2, a3⟩ := iha (lowerC f n).2.2
+    obtain ⟨b1, b2, b3⟩ := ihb (lowerC a (lowerC f n).2.2).2.2
+    have hfa := bound_fin_le _ _ _ a2 a3
+    have hfb := bound_fin_le _ _ _ b2 b3
+    simp only [lowerC]
+    generalize lowerC b (lowerC a (lowerC f n).2.2).2.2 = rb at b1 b2 b3 hfb ⊢
+    generalize lowerC a (lowerC f n).2.2 = ra at a1 a2 a3 hfa b1 ⊢
+    generalize lowerC f n = rf at f1 f2 f3 a1 ⊢
+    obtain ⟨g1, g2, g3⟩ := targs_bound tpl nn (fin ra.1 ra.2.1) (fin rb.1 rb.2.1) rb.2.2 (by omega) hfb
+    generalize targs tpl nn (fin ra.1 ra.2.1) (fin rb.1 rb.2.1) = g at g1 g2 g3 ⊢
+    cases opt with
+    | false =>
+      simp only
+      refine ⟨by omega, ?_, pendBound_mono _ _ _ f3 (by omega)⟩
+      simp only [bound]; omega
+    | true =>
+      simp only
+      have hff := bound_fin_le _ _ _ f2 f3
+      have c1 := capture_next (fin rf.1 rf.2.1) rb.2.2
+      have c2 := capture_bound1 (fin rf.1 rf.2.1) rb.2.2
+      have c3 := capture_bound2 (fin rf.1 rf.2.1) rb.2.2
+      simp only [bound, PendBound]
+      omega
+  | mcall mode tpl optLink lk o k nn a b iho ihk iha ihb =>
+    intro n
+    obtain ⟨o1, o2, o3⟩ := iho n
+    obtain ⟨k1, k2, k3⟩ := ihk (lowerC o n).2.2
+    obtain ⟨a1, a2, a3⟩ := iha (lowerC k (lowerC o n).2.2).2.2
+    obtain ⟨b1, b2, b3⟩ := ihb (lowerC a (lowerC k (lowerC o n).2.2).2.2).2.2
+    have hfk := bound_fin_le _ _ _ k2 k3
+    have hfa := bound_fin_le _ _ _ a2 a3
+    have hfb := bound_fin_le _ _ _ b2 b3
+    simp only [lowerC]
+    generalize lowerC b (lowerC a (lowerC k (lowerC o n).2.2).2.2).2.2 = rb at b1 b2 b3 hfb ⊢
+    generalize lowerC a (lowerC k (lowerC o n).2.2).2.2 = ra at a1 a2 a3 hfa b1 ⊢
+    generalize lowerC k (lowerC o n).2.2 = rk at k1 k2 k3 hfk a1 ⊢
+    generalize lowerC o n = ro at o1 o2 o3 k1 ⊢
+    obtain ⟨g1, g2, g3⟩ := targs_bound tpl nn (fin ra.1 ra.2.1) (fin rb.1 rb.2.1) rb.2.2 (by omega) hfb
+    have := mcallLower_bound mode optLink lk ro.1 ro.2.1 (fin rk.1 rk.2.1)
+      (targs tpl nn (fin ra.1 ra.2.1) (fin rb.1 rb.2.1)) rb.2.2 (by omega) (pendBound_mono _ _ _ o3 (by omega))
+      (by omega) g1 g2 g3
+    exact ⟨by omega, this.2.1, this.2.2⟩
+  | del optLink lk o k iho ihk =>
+    intro n
+    obtain ⟨h1, h2, h3⟩ := iho n
+    obtain ⟨k1, k2, k3⟩ := ihk (lowerC o n).2.2
+    have hfo := bound_fin_le _ _ _ h2 h3
+    have hfk := bound_fin_le _ _ _ k2 k3
+    simp only [lowerC]
+    generalize lowerC k (lowerC o n).2.2 = rk at k1 k2 k3 hfk ⊢
+    generalize lowerC o n = ro at h1 h2 h3 hfo k1 ⊢
+    cases optLink with
+    | false =>
+      simp only [PendBound]
+      refine ⟨by omega, ?_, trivial⟩
+      exact bound_finD_le _ _ _ (delT_bound _ _ _ _ (by omega) hfk) (pendBound_mono _ _ _ h3 k1)
+    | true =>
+      have c1 := capture_next (fin ro.1 ro.2.1) rk.2.2
+      have c2 := capture_bound1 (fin ro.1 ro.2.1) rk.2.2
+      have c3 := capture_bound2 (fin ro.1 ro.2.1) rk.2.2
+      have := delT_bound lk (capture (fin ro.1 ro.2.1) rk.2.2).2.1 (fin rk.1 rk.2.1)
+        (capture (fin ro.1 ro.2.1) rk.2.2).2.2 (by omega) (by omega)
+      have hle : bound (fin ro.1 ro.2.1) ≤ (capture (fin ro.1 ro.2.1) rk.2.2).2.2 := by omega
+      rw [Nat.max_eq_right hle] at c2
+      simp only [bound, PendBound]
+      exact ⟨by omega, by omega, trivial⟩
+  | delVal a ih =>
+    intro n
+    obtain ⟨h1, h2, h3⟩ := ih n
+    simp only [lowerC, PendBound]
+    exact ⟨h1, bound_finD_le _ _ _ (by simpa [bound] using h2) h3, trivial⟩
 
 -- ---------------------------------------------------------------- user variables an evaluation can change
 
@@ -396,12 +681,142 @@ def S.assigns : S → Nat → Bool
   | .asgVar y _ r, x => y == x || r.assigns x
   | .asgDot o _ _ r, x => o.assigns x || r.assigns x
   | .asgIdx o k _ r, x => o.assigns x || k.assigns x || r.assigns x
+  | .this, _ => false
+  | .optIdx o k, x => o.assigns x || k.assigns x
+  | .vcall _ _ f _ a b, x => f.assigns x || a.assigns x || b.assigns x
+  | .mcall _ _ _ _ o k _ a b, x => o.assigns x || k.assigns x || a.assigns x || b.assigns x
+  | .del _ _ o k, x => o.assigns x || k.assigns x
+  | .delVal a, x => a.assigns x
 
 @[simp] theorem topP_snd (r : CRes × H) : (topP r).2 = r.2 := rfl
 @[simp] theorem toCP_snd (r : Res × H) : (toCP r).2 = r.2 := rfl
 @[simp] theorem topP_fst (r : CRes × H) : (topP r).1 = r.1.top := rfl
 @[simp] theorem toCP_fst (r : Res × H) : (toCP r).1 = r.1.toC := rfl
 @[simp] theorem toC_top (r : Res) : r.toC.top = r := by cases r <;> rfl
+
+-- ---------------------------------------------------------------- state invariants through the call / delete combinators
+
+section inv
+variable (P : H → Prop)
+
+theorem callWith_inv (w : World) (fv tv : Val) (fargs : H → ARes × H) (h : H)
+    (ha : P (fargs h).2) (hi : ∀ vs h1, P h1 → P (invoke w fv tv vs h1).2) : P (callWith w fv tv fargs h).2 := by
+  unfold callWith
+  split <;> rename_i heq <;> rw [heq] at ha
+  · exact ha
+  · exact hi _ _ ha
+
+theorem memSem_inv (optLink : Bool) (ro : CRes × H) (get : Val → H → Res × H)
+    (h1 : P ro.2) (h2 : ∀ ov h, P h → P (get ov h).2) : P (memSem optLink ro get).2 := by
+  unfold memSem
+  split
+  · exact h1
+  · exact h1
+  · split
+    · exact h1
+    · rename_i ov h' _
+      have := h2 ov h' h1
+      split <;> rename_i heq <;> rw [heq] at this <;> exact this
+
+theorem mcallSem_inv (w : World) (mode : CMode) (m : MRes × H) (fargs : H → ARes × H)
+    (hm : P m.2) (hc : ∀ fv tv h, P h → P (callWith w fv tv fargs h).2) : P (mcallSem w mode m fargs).2 := by
+  unfold mcallSem
+  split
+  · exact hm
+  · split
+    · exact hc _ _ _ hm
+    · exact hm
+  · split
+    · split
+      · exact hm
+      · exact hc _ _ _ hm
+    · exact hc _ _ _ hm
+
+theorem vcallSem_inv (w : World) (opt : Bool) (rf : CRes × H) (fargs : H → ARes × H)
+    (hm : P rf.2) (hc : ∀ fv tv h, P h → P (callWith w fv tv fargs h).2) : P (vcallSem w opt rf fargs).2 := by
+  unfold vcallSem
+  split
+  · exact hm
+  · exact hm
+  · split
+    · exact hm
+    · exact hc _ _ _ hm
+
+theorem delSem_inv (optLink : Bool) (ro : CRes × H) (del : Val → H → Res × H)
+    (h1 : P ro.2) (h2 : ∀ ov h, P h → P (del ov h).2) : P (delSem optLink ro del).2 := by
+  unfold delSem
+  split
+  · exact h1
+  · exact h1
+  · split
+    · exact h1
+    · exact h2 _ _ h1
+
+theorem delValSem_inv (r : CRes × H) (h1 : P r.2) : P (delValSem r).2 := by
+  unfold delValSem
+  split <;> exact h1
+
+theorem argsS_inv (tpl : Option TplSite) (n : Nat) (fa fb : H → Res × H)
+    (ht : ∀ site h, P h → P (getTpl site h).2)
+    (ha : ∀ h, P h → P (fa h).2) (hb : ∀ h, P h → P (fb h).2) (h : H) (hp : P h) : P (argsS tpl n fa fb h).2 := by
+  unfold argsS
+  split
+  · exact args3_inv P _ _ _ _ ha hb hb h hp
+  · exact args3_inv P _ _ _ _ (ht _) ha hb h hp
+
+end inv
+
+section keeps2
+variable {w : World} {x : Nat} (hk : Keeps w x)
+include hk
+
+theorem invoke_keeps (fv tv : Val) (vs : List Val) (h : H) : (invoke w fv tv vs h).2.env x = h.env x := by
+  unfold invoke
+  split
+  · exact doEv_keeps hk _ h
+  · rfl
+
+theorem delProp_keeps (ov kv : Val) (h : H) : (delProp w ov kv h).2.env x = h.env x := by
+  unfold delProp
+  split
+  · rfl
+  · refine bindR_inv (fun h' : H => h'.env x = h.env x) _ _ (toPrim_keeps hk _ _ h) (fun p h1 hp => ?_)
+    exact bindR_inv (fun h' : H => h'.env x = h.env x) _ _ ((doEv_keeps hk _ h1).trans hp) (fun _ h2 hp2 => hp2)
+
+omit hk in
+theorem getTpl_env (site : Nat) (h : H) : (getTpl site h).2.env = h.env := by
+  unfold getTpl
+  split <;> rfl
+
+theorem linkGet_keeps (lk : Link) (fk : H → Res × H) (hfk : ∀ h, (fk h).2.env x = h.env x) (ov : Val) (h : H) :
+    (linkGet w lk fk ov h).2.env x = h.env x := by
+  cases lk with
+  | dot p => exact getProp_keeps hk _ _ h
+  | idx =>
+    simp only [linkGet]
+    exact bindR_inv (fun h' : H => h'.env x = h.env x) _ _ (hfk h) (fun kv h1 hp => (getProp_keeps hk _ _ h1).trans hp)
+
+theorem linkDel_keeps (lk : Link) (fk : H → Res × H) (hfk : ∀ h, (fk h).2.env x = h.env x) (ov : Val) (h : H) :
+    (linkDel w lk fk ov h).2.env x = h.env x := by
+  cases lk with
+  | dot p => exact delProp_keeps hk _ _ h
+  | idx =>
+    simp only [linkDel]
+    exact bindR_inv (fun h' : H => h'.env x = h.env x) _ _ (hfk h) (fun kv h1 hp => (delProp_keeps hk _ _ h1).trans hp)
+
+theorem callWith_keeps (fv tv : Val) (fargs : H → ARes × H) (hfa : ∀ h, (fargs h).2.env x = h.env x) (h h0 : H)
+    (hp : h.env x = h0.env x) : (callWith w fv tv fargs h).2.env x = h0.env x :=
+  callWith_inv (fun h' : H => h'.env x = h0.env x) w fv tv fargs h ((hfa h).trans hp)
+    (fun vs h1 hp1 => (invoke_keeps hk _ _ _ h1).trans hp1)
+
+omit hk in
+theorem argsS_keeps (tpl : Option TplSite) (n : Nat) (fa fb : H → Res × H)
+    (ha : ∀ h, (fa h).2.env x = h.env x) (hb : ∀ h, (fb h).2.env x = h.env x) (h : H) :
+    (argsS tpl n fa fb h).2.env x = h.env x :=
+  argsS_inv (fun h' : H => h'.env x = h.env x) tpl n fa fb
+    (fun site h1 hp => by rw [getTpl_env]; exact hp) (fun h1 hp => (ha h1).trans hp) (fun h1 hp => (hb h1).trans hp) h rfl
+
+end keeps2
 
 /-- an expression without an assignment to `x`, in a world that never reassigns `x`, leaves `x` alone -/
 theorem evalC_keeps (w : World) (x : Nat) (hk : Keeps w x) :
@@ -495,6 +910,45 @@ theorem evalC_keeps (w : World) (x : Nat) (hk : Keeps w x) :
     refine (assignOp_keeps hk _ _ _ _ ?_ ?_ h3).trans hp3
     · intro h'; exact ihr ha.2 h'
     · intro v h'; exact setProp_keeps hk _ _ _ h'
+  | this => intro _ h; rfl
+  | optIdx o k iho ihk =>
+    intro ha h
+    simp only [S.assigns, Bool.or_eq_false_iff] at ha
+    have := iho ha.1 h
+    simp only [evalC]
+    split <;> rename_i heq <;> rw [heq] at this
+    · exact this
+    · exact this
+    · split
+      · exact this
+      · simp only [toCP_snd]
+        exact bindR_inv (fun h' : H => h'.env x = h.env x) _ _ ((ihk ha.2 _).trans this)
+          (fun v h1 hp => (getProp_keeps hk _ _ h1).trans hp)
+  | vcall opt tpl f n a b ihf iha ihb =>
+    intro hs h
+    simp only [S.assigns, Bool.or_eq_false_iff] at hs
+    simp only [evalC]
+    refine vcallSem_inv (fun h' : H => h'.env x = h.env x) w opt _ _ (ihf hs.1.1 h) (fun fv tv h1 hp => ?_)
+    exact callWith_keeps hk fv tv _ (fun h2 => argsS_keeps tpl n _ _ (fun h3 => iha hs.1.2 h3) (fun h3 => ihb hs.2 h3) h2) h1 h hp
+  | mcall mode tpl optLink lk o k n a b iho ihk iha ihb =>
+    intro hs h
+    simp only [S.assigns, Bool.or_eq_false_iff] at hs
+    simp only [evalC]
+    refine mcallSem_inv (fun h' : H => h'.env x = h.env x) w mode _ _ ?_ (fun fv tv h1 hp => ?_)
+    · exact memSem_inv (fun h' : H => h'.env x = h.env x) optLink _ _ (iho hs.1.1.1 h)
+        (fun ov h1 hp => (linkGet_keeps hk lk _ (fun h2 => ihk hs.1.1.2 h2) ov h1).trans hp)
+    · exact callWith_keeps hk fv tv _ (fun h2 => argsS_keeps tpl n _ _ (fun h3 => iha hs.1.2 h3) (fun h3 => ihb hs.2 h3) h2) h1 h hp
+  | del optLink lk o k iho ihk =>
+    intro hs h
+    simp only [S.assigns, Bool.or_eq_false_iff] at hs
+    simp only [evalC]
+    exact delSem_inv (fun h' : H => h'.env x = h.env x) optLink _ _ (iho hs.1 h)
+      (fun ov h1 hp => (linkDel_keeps hk lk _ (fun h2 => ihk hs.2 h2) ov h1).trans hp)
+  | delVal a ih =>
+    intro hs h
+    simp only [S.assigns] at hs
+    simp only [evalC]
+    exact delValSem_inv (fun h' : H => h'.env x = h.env x) _ (ih hs h)
 
 -- ---------------------------------------------------------------- emitted expressions as state transformers
 
@@ -553,6 +1007,21 @@ theorem capture_spec (w : World) (full : T) (n : Nat) (s : TState) :
   | setIdx o k e => exact key
   | pow a b => exact key
   | concat b sub tl => exact key
+  | this =>
+    simp only [capture, evalT, true_and]
+    intro v hv s2 _
+    cases hv
+    rfl
+  | callV f n a b c => exact key
+  | callDot o p n a b c => exact key
+  | callIdx o k n a b c => exact key
+  | callCall f t n a b c => exact key
+  | delDot o p => exact key
+  | delIdx o k => exact key
+  | delV e => exact key
+  | tcell site => exact key
+  | setCell site e => exact key
+  | mkTpl site strs => exact key
 
 theorem capture_tm (w : World) (full : T) (n : Nat) (s : TState) (j : Nat) (hb : bound full ≤ j) (hj : j ≠ n) :
     (evalT w (capture full n).1 s).2.tm j = s.tm j := by
@@ -1010,6 +1479,12 @@ def S.wf : S → Bool
   | .asgVar _ _ r => r.wf
   | .asgDot o _ _ r => o.wf && r.wf
   | .asgIdx o k _ r => o.wf && k.wf && r.wf
+  | .this => true
+  | .optIdx o k => o.wf && k.wf
+  | .vcall _ _ f _ a b => f.wf && a.wf && b.wf
+  | .mcall _ _ _ _ o k _ a b => o.wf && k.wf && a.wf && b.wf
+  | .del _ _ o k => o.wf && k.wf
+  | .delVal a => a.wf
 
 /-- no `**=` -/
 def S.noPow : S → Bool
@@ -1026,6 +1501,12 @@ def S.noPow : S → Bool
   | .asgVar _ op r => op != .pow && r.noPow
   | .asgDot o _ op r => op != .pow && o.noPow && r.noPow
   | .asgIdx o k op r => op != .pow && o.noPow && k.noPow && r.noPow
+  | .this => true
+  | .optIdx o k => o.noPow && k.noPow
+  | .vcall _ _ f _ a b => f.noPow && a.noPow && b.noPow
+  | .mcall _ _ _ _ o k _ a b => o.noPow && k.noPow && a.noPow && b.noPow
+  | .del _ _ o k => o.noPow && k.noPow
+  | .delVal a => a.noPow
 
 theorem bindR_ne {σ : Type} (x : Exc) (r : Res × σ) (f : Val → σ → Res × σ)
     (h1 : r.1 ≠ .err x) (h2 : ∀ v s, (f v s).1 ≠ .err x) : (bindR r f).1 ≠ .err x := by
@@ -1173,6 +1654,143 @@ theorem tpl_not_short (w : World) (e : S) (he : e.isTpl = true) (h : H) : (evalC
   | tcat p sb tail => simp only [evalC, toCP_fst]; exact toC_ne_short _
   | _ => simp [S.isTpl] at he
 
+section markers2
+variable (w : World) (x : Exc) (hx : x.marker = true)
+include hx
+
+theorem typeError_nm : Exc.typeError ≠ x := by
+  intro hc; subst hc; simp [Exc.marker] at hx
+
+theorem invoke_nm (fv tv : Val) (vs : List Val) (h : H) : (invoke w fv tv vs h).1 ≠ .err x := by
+  unfold invoke
+  split
+  · exact doEv_nm w x hx _ h
+  · intro hc; simp only [Res.err.injEq] at hc; exact typeError_nm x hx hc
+
+omit hx in
+theorem args3_nm {σ : Type} (n : Nat) (fa fb fc : σ → Res × σ) (ha : ∀ s, (fa s).1 ≠ .err x)
+    (hb : ∀ s, (fb s).1 ≠ .err x) (hc : ∀ s, (fc s).1 ≠ .err x) (s : σ) : (args3 n fa fb fc s).1 ≠ .err x := by
+  unfold args3
+  split
+  · simp
+  · have h1 := ha s
+    split <;> rename_i heq <;> rw [heq] at h1
+    · intro hh; simp only [ARes.err.injEq] at hh; exact h1 (by rw [hh])
+    · split
+      · simp
+      · rename_i s1 _ _
+        have h2 := hb s1
+        split <;> rename_i heq2 <;> rw [heq2] at h2
+        · intro hh; simp only [ARes.err.injEq] at hh; exact h2 (by rw [hh])
+        · split
+          · simp
+          · rename_i s2 _ _
+            have h3 := hc s2
+            split <;> rename_i heq3 <;> rw [heq3] at h3
+            · intro hh; simp only [ARes.err.injEq] at hh; exact h3 (by rw [hh])
+            · simp
+
+omit hx in
+theorem getTpl_nm (site : Nat) (h : H) : (getTpl site h).1 ≠ .err x := by
+  unfold getTpl
+  split <;> simp
+
+omit hx in
+theorem argsS_nm (tpl : Option TplSite) (n : Nat) (fa fb : H → Res × H) (ha : ∀ s, (fa s).1 ≠ .err x)
+    (hb : ∀ s, (fb s).1 ≠ .err x) (h : H) : (argsS tpl n fa fb h).1 ≠ .err x := by
+  unfold argsS
+  split
+  · exact args3_nm x _ _ _ _ ha hb hb h
+  · exact args3_nm x _ _ _ _ (getTpl_nm x _) ha hb h
+
+theorem callWith_nm (fv tv : Val) (fargs : H → ARes × H) (ha : ∀ h, (fargs h).1 ≠ .err x) (h : H) :
+    (callWith w fv tv fargs h).1 ≠ .err x := by
+  unfold callWith
+  have h1 := ha h
+  split <;> rename_i heq <;> rw [heq] at h1
+  · intro hh; simp only [Res.err.injEq] at hh; exact h1 (by rw [hh])
+  · exact invoke_nm w x hx _ _ _ _
+
+theorem delProp_nm (ov kv : Val) (h : H) : (delProp w ov kv h).1 ≠ .err x := by
+  unfold delProp
+  split
+  · intro hc; simp only [Res.err.injEq] at hc; exact typeError_nm x hx hc
+  · refine bindR_ne x _ _ (toPrim_nm w x hx _ _ h) (fun p h1 => ?_)
+    exact bindR_ne x _ _ (doEv_nm w x hx _ h1) (fun _ h2 => by simp)
+
+theorem linkGet_nm (lk : Link) (fk : H → Res × H) (hfk : ∀ h, (fk h).1 ≠ .err x) (ov : Val) (h : H) :
+    (linkGet w lk fk ov h).1 ≠ .err x := by
+  cases lk with
+  | dot p => exact getProp_nm w x hx _ _ h
+  | idx => exact bindR_ne x _ _ (hfk h) (fun kv h1 => getProp_nm w x hx _ _ h1)
+
+theorem linkDel_nm (lk : Link) (fk : H → Res × H) (hfk : ∀ h, (fk h).1 ≠ .err x) (ov : Val) (h : H) :
+    (linkDel w lk fk ov h).1 ≠ .err x := by
+  cases lk with
+  | dot p => exact delProp_nm w x hx _ _ h
+  | idx => exact bindR_ne x _ _ (hfk h) (fun kv h1 => delProp_nm w x hx _ _ h1)
+
+omit hx in
+theorem memSem_nm (optLink : Bool) (ro : CRes × H) (get : Val → H → Res × H)
+    (h1 : ro.1 ≠ .err x) (h2 : ∀ ov h, (get ov h).1 ≠ .err x) : (memSem optLink ro get).1 ≠ .err x := by
+  unfold memSem
+  split
+  · intro hc; simp only [MRes.err.injEq] at hc; exact h1 (by rw [hc])
+  · simp
+  · split
+    · simp
+    · rename_i ov h' _
+      have := h2 ov h'
+      split <;> rename_i heq <;> rw [heq] at this
+      · intro hc; simp only [MRes.err.injEq] at hc; exact this (by rw [hc])
+      · simp
+
+omit hx in
+theorem mcallSem_nm (mode : CMode) (m : MRes × H) (fargs : H → ARes × H)
+    (hm : m.1 ≠ .err x) (hc : ∀ fv tv h, (callWith w fv tv fargs h).1 ≠ .err x) : (mcallSem w mode m fargs).1 ≠ .err x := by
+  unfold mcallSem
+  split
+  · intro hh; simp only [CRes.err.injEq] at hh; exact hm (by rw [hh])
+  · split
+    · simp only [toCP_fst, ne_eq, toC_err]; exact hc _ _ _
+    · simp
+  · split
+    · split
+      · simp
+      · simp only [toCP_fst, ne_eq, toC_err]; exact hc _ _ _
+    · simp only [toCP_fst, ne_eq, toC_err]; exact hc _ _ _
+
+omit hx in
+theorem vcallSem_nm (opt : Bool) (rf : CRes × H) (fargs : H → ARes × H)
+    (hm : rf.1 ≠ .err x) (hc : ∀ fv tv h, (callWith w fv tv fargs h).1 ≠ .err x) : (vcallSem w opt rf fargs).1 ≠ .err x := by
+  unfold vcallSem
+  split
+  · exact hm
+  · simp
+  · split
+    · simp
+    · simp only [toCP_fst, ne_eq, toC_err]; exact hc _ _ _
+
+omit hx in
+theorem delSem_nm (optLink : Bool) (ro : CRes × H) (del : Val → H → Res × H)
+    (h1 : ro.1 ≠ .err x) (h2 : ∀ ov h, (del ov h).1 ≠ .err x) : (delSem optLink ro del).1 ≠ .err x := by
+  unfold delSem
+  split
+  · exact h1
+  · simp
+  · split
+    · simp
+    · simp only [toCP_fst, ne_eq, toC_err]; exact h2 _ _
+
+omit hx in
+theorem delValSem_nm (r : CRes × H) (h1 : r.1 ≠ .err x) : (delValSem r).1 ≠ .err x := by
+  unfold delValSem
+  split
+  · exact h1
+  · simp
+
+end markers2
+
 /-- the evaluation of a parsed term never reports `illFormed`, and never `bigint` if there is no `**=` -/
 theorem evalC_nm (w : World) (x : Exc) (hx : x.marker = true) :
     ∀ (e : S), e.wf = true → (x = .bigint → e.noPow = true) → ∀ h, (evalC w e h).1 ≠ .err x := by
@@ -1309,3 +1927,267 @@ theorem evalC_nm (w : World) (x : Exc) (hx : x.marker = true) :
           (fun v h' => setProp_nm w x hx _ _ _ h') h3
         simp only [topP_fst, ne_eq, top_err]
         exact ihr hw.2 (fun hb => (hp hb).2) h'
+  | this => intro _ _ h; simp [evalC]
+  | optIdx o k iho ihk =>
+    intro hw hp h
+    simp only [S.wf, S.noPow, Bool.and_eq_true] at hw hp
+    have := iho hw.1 (fun hb => (hp hb).1) h
+    simp only [evalC]
+    split <;> rename_i heq <;> rw [heq] at this
+    · exact this
+    · simp
+    · split
+      · simp
+      · simp only [toCP_fst, ne_eq, toC_err]
+        refine bindR_ne x _ _ ?_ (fun v h1 => getProp_nm w x hx _ _ h1)
+        simp only [topP_fst, ne_eq, top_err]
+        exact ihk hw.2 (fun hb => (hp hb).2) _
+  | vcall opt tpl f n a b ihf iha ihb =>
+    intro hw hp h
+    simp only [S.wf, S.noPow, Bool.and_eq_true] at hw hp
+    simp only [evalC]
+    refine vcallSem_nm w x opt _ _ (ihf hw.1.1 (fun hb => (hp hb).1.1) h) (fun fv tv h1 => ?_)
+    refine callWith_nm w x hx fv tv _ (fun h2 => argsS_nm x tpl n _ _ (fun h3 => ?_) (fun h3 => ?_) h2) h1
+    · simp only [topP_fst, ne_eq, top_err]; exact iha hw.1.2 (fun hb => (hp hb).1.2) h3
+    · simp only [topP_fst, ne_eq, top_err]; exact ihb hw.2 (fun hb => (hp hb).2) h3
+  | mcall mode tpl optLink lk o k n a b iho ihk iha ihb =>
+    intro hw hp h
+    simp only [S.wf, S.noPow, Bool.and_eq_true] at hw hp
+    simp only [evalC]
+    refine mcallSem_nm w x mode _ _ ?_ (fun fv tv h1 => ?_)
+    · refine memSem_nm x optLink _ _ (iho hw.1.1.1 (fun hb => (hp hb).1.1.1) h) (fun ov h1 => ?_)
+      refine linkGet_nm w x hx lk _ (fun h2 => ?_) ov h1
+      simp only [topP_fst, ne_eq, top_err]; exact ihk hw.1.1.2 (fun hb => (hp hb).1.1.2) h2
+    · refine callWith_nm w x hx fv tv _ (fun h2 => argsS_nm x tpl n _ _ (fun h3 => ?_) (fun h3 => ?_) h2) h1
+      · simp only [topP_fst, ne_eq, top_err]; exact iha hw.1.2 (fun hb => (hp hb).1.2) h3
+      · simp only [topP_fst, ne_eq, top_err]; exact ihb hw.2 (fun hb => (hp hb).2) h3
+  | del optLink lk o k iho ihk =>
+    intro hw hp h
+    simp only [S.wf, S.noPow, Bool.and_eq_true] at hw hp
+    simp only [evalC]
+    refine delSem_nm x optLink _ _ (iho hw.1 (fun hb => (hp hb).1) h) (fun ov h1 => ?_)
+    refine linkDel_nm w x hx lk _ (fun h2 => ?_) ov h1
+    simp only [topP_fst, ne_eq, top_err]; exact ihk hw.2 (fun hb => (hp hb).2) h2
+  | delVal a ih =>
+    intro hw hp h
+    simp only [S.wf, S.noPow] at hw hp
+    simp only [evalC]
+    exact delValSem_nm x _ (ih hw hp h)
+
+-- ---------------------------------------------------------------- a state property preserved by every evaluation step
+
+/-- If events, assignments to variables and GetTemplateObject preserve a property of the state, every source
+evaluation does (used for: a template object, once created, stays cached). -/
+structure StepInv (w : World) (P : H → Prop) : Prop where
+  ev : ∀ ev h, P h → P (doEv w ev h).2
+  var : ∀ x v h, P h → P (setVar x v h).2
+  tpl : ∀ site h, P h → P (getTpl site h).2
+
+section stepinv
+variable {w : World} {P : H → Prop} (hi : StepInv w P)
+include hi
+
+theorem toPrim_inv (b : Bool) (v : Val) (h : H) (hp : P h) : P (toPrim w b v h).2 := by
+  unfold toPrim
+  split
+  · refine bindR_inv P _ _ (hi.ev _ h hp) (fun p h1 hp1 => ?_)
+    split <;> exact hp1
+  · exact hp
+
+theorem getProp_inv (ov kv : Val) (h : H) (hp : P h) : P (getProp w ov kv h).2 := by
+  unfold getProp
+  split
+  · exact hp
+  · exact bindR_inv P _ _ (toPrim_inv hi _ _ h hp) (fun p h1 hp1 => hi.ev _ h1 hp1)
+
+theorem setProp_inv (ov kv v : Val) (h : H) (hp : P h) : P (setProp w ov kv v h).2 := by
+  unfold setProp
+  split
+  · exact hp
+  · refine bindR_inv P _ _ (toPrim_inv hi _ _ h hp) (fun p h1 hp1 => ?_)
+    exact bindR_inv P _ _ (hi.ev _ h1 hp1) (fun _ h2 hp2 => hp2)
+
+theorem delProp_inv (ov kv : Val) (h : H) (hp : P h) : P (delProp w ov kv h).2 := by
+  unfold delProp
+  split
+  · exact hp
+  · refine bindR_inv P _ _ (toPrim_inv hi _ _ h hp) (fun p h1 hp1 => ?_)
+    exact bindR_inv P _ _ (hi.ev _ h1 hp1) (fun _ h2 hp2 => hp2)
+
+theorem toStr_inv (v : Val) (h : H) (hp : P h) : P (toStr w v h).2 := by
+  unfold toStr
+  refine bindR_inv P _ _ (toPrim_inv hi _ _ h hp) (fun p h1 hp1 => ?_)
+  split <;> exact hp1
+
+theorem toNumeric_inv (v : Val) (h : H) (hp : P h) : P (toNumeric w v h).2 := by
+  unfold toNumeric
+  refine bindR_inv P _ _ (toPrim_inv hi _ _ h hp) (fun p h1 hp1 => ?_)
+  split <;> exact hp1
+
+theorem powOp_inv (l r : Val) (h : H) (hp : P h) : P (powOp w l r h).2 := by
+  unfold powOp
+  refine bindR_inv P _ _ (toNumeric_inv hi _ h hp) (fun p h1 hp1 => ?_)
+  split
+  · refine bindR_inv P _ _ (toNumeric_inv hi _ h1 hp1) (fun q h2 hq => ?_)
+    split <;> exact hq
+  · exact hp1
+
+theorem assignOp_inv (op : AOp) (lval : Val) (rhs : H → Res × H) (put : Val → H → Res × H)
+    (h1 : ∀ h, P h → P (rhs h).2) (h2 : ∀ v h, P h → P (put v h).2) (h : H) (hp : P h) :
+    P (assignOp w op lval rhs put h).2 := by
+  cases op <;> simp only [assignOp]
+  · split
+    · exact hp
+    · exact bindR_inv P _ _ (h1 h hp) (fun v h' hp' => h2 v h' hp')
+  · split
+    · exact bindR_inv P _ _ (h1 h hp) (fun v h' hp' => h2 v h' hp')
+    · exact hp
+  · split
+    · exact bindR_inv P _ _ (h1 h hp) (fun v h' hp' => h2 v h' hp')
+    · exact hp
+  · refine bindR_inv P _ _ (h1 h hp) (fun v h' hp' => ?_)
+    exact bindR_inv P _ _ (powOp_inv hi _ _ h' hp') (fun v h'' hp'' => h2 v h'' hp'')
+
+theorem invoke_inv (fv tv : Val) (vs : List Val) (h : H) (hp : P h) : P (invoke w fv tv vs h).2 := by
+  unfold invoke
+  split
+  · exact hi.ev _ h hp
+  · exact hp
+
+theorem linkGet_inv (lk : Link) (fk : H → Res × H) (hfk : ∀ h, P h → P (fk h).2) (ov : Val) (h : H) (hp : P h) :
+    P (linkGet w lk fk ov h).2 := by
+  cases lk with
+  | dot p => exact getProp_inv hi _ _ h hp
+  | idx => exact bindR_inv P _ _ (hfk h hp) (fun kv h1 hp1 => getProp_inv hi _ _ h1 hp1)
+
+theorem linkDel_inv (lk : Link) (fk : H → Res × H) (hfk : ∀ h, P h → P (fk h).2) (ov : Val) (h : H) (hp : P h) :
+    P (linkDel w lk fk ov h).2 := by
+  cases lk with
+  | dot p => exact delProp_inv hi _ _ h hp
+  | idx => exact bindR_inv P _ _ (hfk h hp) (fun kv h1 hp1 => delProp_inv hi _ _ h1 hp1)
+
+theorem evalC_inv : ∀ (e : S) (h : H), P h → P (evalC w e h).2 := by
+  intro e
+  have hcall : ∀ (tpl : Option TplSite) (n : Nat) (fa fb : H → Res × H),
+      (∀ h, P h → P (fa h).2) → (∀ h, P h → P (fb h).2) →
+      ∀ fv tv h, P h → P (callWith w fv tv (argsS tpl n fa fb) h).2 := by
+    intro tpl n fa fb ha hb fv tv h hp
+    exact callWith_inv P w fv tv _ h (argsS_inv P tpl n fa fb hi.tpl ha hb h hp)
+      (fun vs h1 hp1 => invoke_inv hi _ _ _ h1 hp1)
+  induction e with
+  | id y => intro h hp; exact hp
+  | lit v => intro h hp; exact hp
+  | tstr s => intro h hp; exact hp
+  | this => intro h hp; exact hp
+  | call f a ih =>
+    intro h hp
+    simp only [evalC, toCP_snd]
+    exact bindR_inv P _ _ (ih h hp) (fun v h1 hp1 => hi.ev _ h1 hp1)
+  | dot o p ih =>
+    intro h hp
+    have := ih h hp
+    simp only [evalC]
+    split <;> rename_i heq <;> rw [heq] at this
+    · exact this
+    · exact this
+    · exact getProp_inv hi _ _ _ this
+  | optDot o p ih =>
+    intro h hp
+    have := ih h hp
+    simp only [evalC]
+    split <;> rename_i heq <;> rw [heq] at this
+    · exact this
+    · exact this
+    · split
+      · exact this
+      · exact getProp_inv hi _ _ _ this
+  | paren a ih => intro h hp; simpa [evalC] using ih h hp
+  | idx o k iho ihk =>
+    intro h hp
+    have := iho h hp
+    simp only [evalC]
+    split <;> rename_i heq <;> rw [heq] at this
+    · exact this
+    · exact this
+    · simp only [toCP_snd]
+      exact bindR_inv P _ _ (ihk _ this) (fun v h1 hp1 => getProp_inv hi _ _ h1 hp1)
+  | optIdx o k iho ihk =>
+    intro h hp
+    have := iho h hp
+    simp only [evalC]
+    split <;> rename_i heq <;> rw [heq] at this
+    · exact this
+    · exact this
+    · split
+      · exact this
+      · simp only [toCP_snd]
+        exact bindR_inv P _ _ (ihk _ this) (fun v h1 hp1 => getProp_inv hi _ _ h1 hp1)
+  | nullish a b iha ihb =>
+    intro h hp
+    simp only [evalC, toCP_snd]
+    refine bindR_inv P _ _ (iha h hp) (fun v h1 hp1 => ?_)
+    split
+    · exact ihb h1 hp1
+    · exact hp1
+  | tcat p s tail ihp ihs =>
+    intro h hp
+    simp only [evalC, toCP_snd]
+    refine bindR_inv P _ _ (ihp h hp) (fun v h1 hp1 => ?_)
+    split
+    · refine bindR_inv P _ _ (ihs h1 hp1) (fun v h2 hp2 => ?_)
+      refine bindR_inv P _ _ (toStr_inv hi _ h2 hp2) (fun v h3 hp3 => ?_)
+      split <;> exact hp3
+    · exact hp1
+  | asgVar y op r ih =>
+    intro h hp
+    simp only [evalC, toCP_snd]
+    exact assignOp_inv hi _ _ _ _ (fun h' hp' => ih h' hp') (fun v h' hp' => hi.var y v h' hp') h hp
+  | asgDot o p op r iho ihr =>
+    intro h hp
+    simp only [evalC, toCP_snd]
+    refine bindR_inv P _ _ (iho h hp) (fun ov h1 hp1 => ?_)
+    refine bindR_inv P _ _ (getProp_inv hi _ _ h1 hp1) (fun lv h2 hp2 => ?_)
+    exact assignOp_inv hi _ _ _ _ (fun h' hp' => ihr h' hp') (fun v h' hp' => setProp_inv hi _ _ _ h' hp') h2 hp2
+  | asgIdx o k op r iho ihk ihr =>
+    intro h hp
+    simp only [evalC, toCP_snd]
+    refine bindR_inv P _ _ (iho h hp) (fun ov h1 hp1 => ?_)
+    refine bindR_inv P _ _ (ihk h1 hp1) (fun kv h2 hp2 => ?_)
+    refine bindR_inv P _ _ (getProp_inv hi _ _ h2 hp2) (fun lv h3 hp3 => ?_)
+    exact assignOp_inv hi _ _ _ _ (fun h' hp' => ihr h' hp') (fun v h' hp' => setProp_inv hi _ _ _ h' hp') h3 hp3
+  | vcall opt tpl f n a b ihf iha ihb =>
+    intro h hp
+    simp only [evalC]
+    exact vcallSem_inv P w opt _ _ (ihf h hp) (hcall tpl n _ _ (fun h' hp' => iha h' hp') (fun h' hp' => ihb h' hp'))
+  | mcall mode tpl optLink lk o k n a b iho ihk iha ihb =>
+    intro h hp
+    simp only [evalC]
+    refine mcallSem_inv P w mode _ _ ?_ (hcall tpl n _ _ (fun h' hp' => iha h' hp') (fun h' hp' => ihb h' hp'))
+    exact memSem_inv P optLink _ _ (iho h hp) (fun ov h1 hp1 => linkGet_inv hi lk _ (fun h' hp' => ihk h' hp') ov h1 hp1)
+  | del optLink lk o k iho ihk =>
+    intro h hp
+    simp only [evalC]
+    exact delSem_inv P optLink _ _ (iho h hp) (fun ov h1 hp1 => linkDel_inv hi lk _ (fun h' hp' => ihk h' hp') ov h1 hp1)
+  | delVal a ih =>
+    intro h hp
+    simp only [evalC]
+    exact delValSem_inv P _ (ih h hp)
+
+end stepinv
+
+/-- once a tagged-template site has its array, it keeps it -/
+theorem tcell_stepInv (w : World) (site g : Nat) : StepInv w (fun h => h.tcell site = some g) := by
+  constructor
+  · intro ev h hp
+    unfold doEv
+    split <;> exact hp
+  · intro x v h hp; exact hp
+  · intro st h hp
+    unfold getTpl
+    split
+    · exact hp
+    · rename_i hn
+      simp only
+      split
+      · rename_i heq; subst heq; rw [hp] at hn; cases hn
+      · exact hp
